@@ -435,6 +435,27 @@ func c15Corpus() []c15Case {
 		b.call(0, 0, false)
 		b.call(0, 0, false)
 	})
+	// answered probe with the reinstatement still pending, a second request queued meanwhile, the reinstatement, then
+	// the second probe fails on the (now active) adapter: nothing is wrong (regression: monitor false alarm)
+	mk("requeued-probe-fails-after-reinstatement", func(b *c15B) {
+		b.refresh([]int{0, 2})
+		for i := 0; i < 4; i++ {
+			b.call(0, 0, false)
+		}
+		b.outs(2, 5, false)
+		b.adv(6)
+		b.check()
+		b.adv(30)
+		b.check()
+		b.call(0, 0, true) // probe of endpoint 2, answered, reinstatement deferred
+		b.adv(31)
+		b.check() // still blocked: requested again
+		b.reinst()
+		b.up(2, false)
+		b.call(0, 0, false) // the queued probe, on an active adapter, fails
+		b.check()
+		b.call(0, 0, false)
+	})
 	out = append(out, c14ctxCases()...)
 	out = append(out, c15E2ECorpus()...)
 	return out
